@@ -96,6 +96,10 @@ type progOpts struct {
 	jsSafe     bool // stay inside the subset both backends define (C04)
 	taint      bool
 	directives bool
+	// hooks of the ill-typed/erroring stream (C06); nil = the valid stream, and
+	// no PRNG draw is added, so the other properties' streams are unchanged
+	exprHook func(g *progGen, env genv, k kind, d int) (string, bool) // may replace any expression
+	dirHook  func(g *progGen) (string, bool)                          // may replace a print's directive suffix
 	spread     bool // C19: put (most) commands on lines of their own, so that line numbers discriminate
 	allHeader  bool // C19: every template declares its params in the header (no soydoc comment in the file)
 	scope      bool // C02: small name pool (shadowing), scope probes, aliases, attribute-style params, more data="all"/data="$e"
@@ -189,6 +193,11 @@ func (g *progGen) use(v gvar) string {
 func (g *progGen) expr(env genv, k kind, d int) string {
 	if g.o.illTyped > 0 && g.r.Chance(g.o.illTyped) {
 		k = kind(g.r.Intn(int(kNull) + 1))
+	}
+	if g.o.exprHook != nil {
+		if s, ok := g.o.exprHook(g, env, k, d); ok {
+			return s
+		}
 	}
 	vars := env.ofKind(k)
 	if d <= 0 || g.r.Chance(30) {
@@ -516,6 +525,11 @@ func (g *progGen) block(env genv, d int, n int) string {
 			dir := ""
 			if k == kStr {
 				dir = g.directive()
+			}
+			if g.o.dirHook != nil {
+				if s, ok := g.o.dirHook(g); ok {
+					dir = s
+				}
 			}
 			if g.r.Chance(30) {
 				sb.WriteString("{print " + ex + dir + "}")
